@@ -192,6 +192,57 @@ CLAIMED = {
               "and mirror equivariance of all four variants, finite-difference Jacobian, on the implementation."),
         design="6/C06", technique="Lean 4 proof at ℝ (loop invariant, closed-form Jacobian, HasDerivAt) + Float-model correspondence + implementation oracles",
         note=PROOF_NOTE + " That the solvers do converge on resolved inputs, MEM's discretisation bound (0.05, empirical) and rotation equivariance of whole solver runs are decided by the oracles only."),
+    "C08": dict(
+        text=("Lean 4 theorems at ℝ over the model of st4_wind_input / st4_wave_breaking / st6_wave_breaking / operations "
+              "(one spatial point, wavenumbers and group velocities as inputs): the ST4 input of every bin is >= 0 for a "
+              "non-negative spectrum whatever wind, roughness, depth (growth = const * exp(l) * l^4 * W^2 * omega), = 0 where "
+              "E = 0, = 0 where cos(theta - theta_w) <= 0, and linear in E at fixed roughness, for the kernel and for the whole "
+              "field; ST4 saturation and cumulative terms and ST6 inherent + cumulative terms are <= 0 and = 0 where E = 0 "
+              "(strength integral >= 0, exceedances >= 0); the bulk rate is the double sum with the spectrum's own bin widths and "
+              "has the sign of the field. Correspondence: Float model against gen.rate / bulk_rate at fixed roughness and "
+              "dis.rate / bulk_rate / mean direction (ST4, ST6, 5+5+3 parameter sets, u10 and u* input, deep / finite depth); "
+              "sign, support, proportionality, bulk = integral, batch = single, imbalance identities and Romero sign as "
+              "oracles on the code."),
+        design="6/C08, 11.3", technique="Lean 4 proof at ℝ (sign / support / linearity of every kernel and field) + Float-model correspondence + implementation oracles",
+        note=PROOF_NOTE + " Romero is checked by oracle only (not modelled). The imbalance identities are definitional in the model and tied by the oracle."),
+    "C09": dict(
+        text=("Lean 4 theorems at ℝ for every N and every rotation k (mirror for grids starting at 0): the mutual-angle wrap "
+              "does not change the cosine and is 2 pi periodic; the ST4 input row of a jointly rotated spectrum and wind is "
+              "the rotated row (and the mirrored row for the mirror image); the band-integrated saturation and the "
+              "cumulative-breaking strength are circular convolutions whose kernels depend on the index difference only "
+              "(|c e^{ia} - c' e^{ib}|^2 = c^2 + c'^2 - 2cc' cos(a-b)), hence commute with the rotation; direction integrals "
+              "(bulk rates, ST6 saturation) are invariant; the stress vector rotates as a vector, so its magnitude is "
+              "invariant and its direction shifts by k*360/N mod 360 (negates under mirroring); a solver applied to a "
+              "pointwise equal balance function returns the same value. Oracles on the code: fields shift by k bins "
+              "(1e-9), angles shift mod 360, bulk rates / stress magnitude / roughness / estimated U10 unchanged, for "
+              "N in 16, 24, 36, all k (thorough) and the mirror image; stress correspondence with the Float model."),
+        design="6/C09, 11.3", technique="Lean 4 proof at ℝ (re-indexing over Fin N, periodicity, convolution commutes with rotation, vector rotation) + rotation/mirror oracles on the implementation",
+        note=PROOF_NOTE + " The theorems are about the per-row kernels as functions of the bin index (bridge lemma to the list model for the input row); that whole float solver runs are bit-identical under rotation is not claimed (oracle tolerance 1e-5 / 0.03 m/s)."),
+    "C10": dict(
+        text=("Lean 4 theorems at ℝ over branch-by-branch models of fixed_point_iteration and numba_newton_raphson: a missing "
+              "(NaN) wind speed gives a missing roughness element by element; drag = (kappa/ln(elev/z0))^2; the Charnock map is "
+              "alpha u*^2/g + c nu/u* with u* = kappa U/ln(elev/z); invariant of the Newton/secant/bisection hybrid over all "
+              "reachable states (recorded bracket values are f at the bracket ends, bracket ordered, iterate inside once "
+              "bracketed, end values of opposite sign) and its consequence: every value returned through the convergence "
+              "test has a last step below atol / rtol and, if bracketed, lies in a bracket with a sign change, which for a "
+              "continuous balance contains an exact root (IVT); a returned wave-dependent roughness is exp of such a value, "
+              "hence positive, or missing. Correspondence: both solvers against the jitted / numpy code on seven test-function "
+              "families (raised vs returned and value), charnock_roughness_length_from_u10 and drag for all input kinds, the "
+              "stress balance and the Janssen roughness; Charnock residual <= 1e-4, monotonicity, NaN and the "
+              "single-sign-change residual (1e-4) oracles."),
+        design="6/C10, 11.3", technique="Lean 4 proof at ℝ (solver invariants by induction over iterations, IVT) + Float-model correspondence + residual oracles",
+        note=PROOF_NOTE + " Convergence itself, the 1e-4 Janssen residual and monotonicity of the exact Charnock root in U are sampled, not proved."),
+    "C11": dict(
+        text=("Lean 4 theorems at ℝ: U10 = 0 when the integrated dissipation is 0; without direction iteration the direction "
+              "handed in is returned; with hard bounds (0, inf) and a non-negative guess no iterate is negative, so the "
+              "estimate is missing or >= 0; a returned estimate carries the solver certificate for the balance function "
+              "(last step < 0.01 m/s; if bracketed, inside a bracket with a sign change of the balance); the rate-of-change "
+              "term only counts bins with positive generation. Oracles on the code: balance (bulk input + bulk dissipation - "
+              "active rate of change) changes sign within +-0.03 m/s of the returned U10, direction = dissipation-weighted "
+              "mean direction, finite result whenever a scan shows a root in [2, 40] m/s, zero for zero dissipation, "
+              "batch = single; correspondence of the balance function and of the whole inversion with the Float model."),
+        design="6/C11, 11.3", technique="Lean 4 proof at ℝ (solver invariant, non-negativity, certificate) + Float-model correspondence + balance oracles",
+        note=PROOF_NOTE + " Existence / uniqueness of the root and convergence are sampled. Strict positivity is an oracle (the theorem gives >= 0). Direction iteration is not modelled."),
 }
 
 NOT_YET = "check not built yet in this session; see DESIGN.md section 9 (build order)"
